@@ -10,7 +10,9 @@ ASSUMPTIONS = [
     "base32 decode->encode (stdlib base64 behind a2b/b2a) is the identity exactly on canonical unpadded RFC 4648 strings over the live alphabet; "
     "int()->'%d' is the identity exactly on 0|-?[1-9][0-9]*  (both ideal models are compared with the real functions on the corpus each run)",
     "_DirectoryBaseURI.init_from_string/to_string: hand model 'search BASE_STRING_RE, keep the rest, prepend INNER.BASE_STRING' over the live class attributes",
-    "the alleged prefixes ro./imm. are stripped by from_string by design (ticket #833): canonicality is claimed for unprefixed strings; the prefix/context matrix is C16",
+    "the alleged prefixes ro./imm. are stripped by from_string by design (ticket #833): canonicality is claimed for unprefixed strings; prefix_single "
+    "shows that at most one prefix is ever stripped; the prefix/context authority matrix is C16",
+    "prefix handling of from_string is a table learned from the real function (token sequences up to length 3 x deep_immutable), validated on the corpus",
     "regex translation supports anchors at the pattern edges only; anything else is a harness error, not a pass",
 ]
 
@@ -40,6 +42,10 @@ def parse_total(ctx):
     return _h().ob_parse_total(ctx)
 
 
+def prefix_single(ctx):
+    return _h().ob_prefix_single(ctx)
+
+
 FAM = [{"family": "files", "_label": "files"}, {"family": "dirs", "_label": "dirs"}]
 BQ = {"quick": {"cvc5": False, "query_timeout_ms": 60000}, "thorough": {"cvc5": True, "query_timeout_ms": 300000}}
 T = {"quick": 120, "thorough": 900}
@@ -65,4 +71,11 @@ OBLIGATIONS = [
               "(sys.get_int_max_str_digits) either cannot occur (length query on the live group regex) or its ValueError is caught by "
               "from_string's handler (exception classes read from the AST; the over-long witness is replayed on the real function); "
               "a2b's precondition is covered by base32_tables. Witness class: int-digits-limit"),
+    pyob("prefix_single", "prefix_single", bounds=BQ, timeout=T,
+         desc="every input uri.from_string turns into a known kind (either value of deep_immutable) is that capability's own string with AT MOST "
+              "ONE alleged prefix (ro. or imm.), and the restriction the prefix / deep_immutable alleges is in force. How many prefix tokens "
+              "from_string strips and which flags it then applies is LEARNED from the real function for every token sequence up to length 3 "
+              "(regex subject observed through a wrapped pattern), so the check does not depend on how the stripping is written; the inputs "
+              "are then all strings of the live grammars (z3)",
+         outside="token sequences longer than 3 are assumed to behave like their first 3 tokens"),
 ]
